@@ -37,17 +37,17 @@ def run(tier):
                 "order-insensitively, with a reference protocol written from the property.",
                 trusted_base=["python ast", "hv.kpe", "hv.drivers harness", "reference protocols in hv/rules/drv.py",
                               "dense evaluators are the ones proved in C02.b / C15.c"])
+    # compiled event callbacks that are cached must be keyed by everything numba freezes into them
+    from .. import memo
+    memo.check_modules(chk, "C11.b-memo", ["hiten.algorithms.integrators.base", "hiten.algorithms.integrators.rk", "hiten.algorithms.integrators.symplectic",
+                                           "hiten.algorithms.integrators.utils", "hiten.algorithms.poincare.singlehit.backend"], floor=1,
+                       what="hand-rolled caches of compiled event functions")
     _a_predicates(chk)
     _b_drivers(chk, tier)
     _b_symplectic(chk, tier)
     _c_refiners(chk, tier)
     _b_integrate_wrappers(chk)
     _e_wrapper(chk)
-    # compiled event callbacks that are cached must be keyed by everything numba freezes into them
-    from .. import memo
-    memo.check_modules(chk, "C11.b-memo", ["hiten.algorithms.integrators.base", "hiten.algorithms.integrators.rk", "hiten.algorithms.integrators.symplectic",
-                                           "hiten.algorithms.integrators.utils", "hiten.algorithms.poincare.singlehit.backend"], floor=1,
-                       what="hand-rolled caches of compiled event functions")
     return chk
 
 
